@@ -8,10 +8,8 @@ import (
 	"encoding/base64"
 	"encoding/json"
 	"fmt"
-	"html"
 	"net/http"
 	"net/url"
-	"regexp"
 	"strings"
 	"time"
 
@@ -580,8 +578,6 @@ func (w *World) absJSON(rec interface {
 	panic("absJSON kind " + kind)
 }
 
-var formAction = regexp.MustCompile(`action="([^"]*)"`)
-var formInput = regexp.MustCompile(`name="([^"]*)" value="([^"]*)"`)
 var respParamNames = []string{"code", "state", "error", "error_description", "error_uri", "iss", "access_token", "token_type", "id_token", "response"}
 
 // abstraction of what /authorize and its callback answer
@@ -613,13 +609,15 @@ func (w *World) absAuthorize(rec interface {
 		return Obs{Kind: "Page", H: w.handleOf(strings.TrimPrefix(raw, "PAGE cb="), KCallback), Status: status, Raw: raw}
 	}
 	if strings.Contains(raw, "<form") {
-		act := ""
-		if m := formAction.FindStringSubmatch(raw); m != nil {
-			act = html.UnescapeString(m[1])
-		}
+		// the document as a browser reads it (htmldoc.go): markup outside the template's skeleton
+		// is a navigation the action attribute does not show
+		act, fv, extra := formPostDocument(raw)
 		vals := url.Values{}
-		for _, m := range formInput.FindAllStringSubmatch(raw, -1) {
-			vals.Set(html.UnescapeString(m[1]), html.UnescapeString(m[2]))
+		for k, l := range fv {
+			vals[k] = l
+		}
+		if extra != "" {
+			act = "form_post document carries markup of its own: " + extra
 		}
 		return w.navObs("", act, vals, status, raw)
 	}
